@@ -50,25 +50,41 @@ def build(clean: bool = False, jobs: int = 8, timeout: int = 1500) -> tuple[bool
 
 
 def clean_build(work: Path, jobs: int = 12, timeout: int = 3000) -> tuple[bool, str, Path]:
-    """Full .vo build from clean in a private copy of the project (thorough tier): does not disturb the
-    shared build directory, so several checks can run at the same time."""
+    """Full .vo build from clean in a private copy of the project (thorough tier).  It does not disturb the
+    shared build directory, so several checks can run at the same time; the copy is keyed by the hash of all
+    source files of _CoqProject, so thorough checks of the same tree share one clean build."""
+    import hashlib
     import shutil
 
-    dst = Path(work) / "coqclean"
-    if dst.exists():
-        shutil.rmtree(dst)
-    dst.mkdir(parents=True)
     listed = [l.strip() for l in (COQ / "_CoqProject").read_text().splitlines() if l.strip().endswith(".v")]
+    h = hashlib.sha256((COQ / "_CoqProject").read_bytes())
     for rel in listed:
-        (dst / rel).parent.mkdir(parents=True, exist_ok=True)
-        shutil.copy2(COQ / rel, dst / rel)
-    shutil.copy2(COQ / "_CoqProject", dst / "_CoqProject")
+        h.update(rel.encode())
+        h.update((COQ / rel).read_bytes())
+    root = VERIF / ".work"
+    root.mkdir(exist_ok=True)
+    dst = root / f"cleanbuild_{h.hexdigest()[:16]}"
+    lock = open(root / ".cleanbuild.lock", "w")
+    fcntl.flock(lock, fcntl.LOCK_EX)
     try:
+        if (dst / "BUILD_OK").exists():
+            return True, "reused clean build of the same sources", dst
+        for old in root.glob("cleanbuild_*"):
+            shutil.rmtree(old, ignore_errors=True)
+        dst.mkdir(parents=True)
+        for rel in listed:
+            (dst / rel).parent.mkdir(parents=True, exist_ok=True)
+            shutil.copy2(COQ / rel, dst / rel)
+        shutil.copy2(COQ / "_CoqProject", dst / "_CoqProject")
         subprocess.run(["coq_makefile", "-f", "_CoqProject", "-o", "Makefile"], cwd=dst, check=True, capture_output=True, timeout=120)
         p = subprocess.run(["make", f"-j{jobs}"], cwd=dst, capture_output=True, text=True, timeout=timeout)
+        if p.returncode == 0:
+            (dst / "BUILD_OK").write_text("ok\n")
         return p.returncode == 0, (p.stdout + p.stderr)[-3000:], dst
     except Exception as e:  # noqa: BLE001
         return False, str(e), dst
+    finally:
+        lock.close()
 
 
 def hygiene() -> list[str]:
